@@ -8,8 +8,50 @@ package workceptor
 import (
 	"encoding/json"
 	"os"
+	"strconv"
+	"strings"
+	"sync"
+	"syscall"
 	"time"
 )
+
+var (
+	verifCrashMu    sync.Mutex
+	verifCrashSeen  = map[string]int{}
+	verifCrashArmed string
+)
+
+// verifCrashPoint: a crash point of property C04.  The harness arms one by writing "role point n" into the
+// file named by VERIF_CRASH_FILE; the process whose VERIF_ROLE is that role kills itself (SIGKILL) the n-th
+// time it passes that point after the arming.
+func verifCrashPoint(name string) {
+	p := os.Getenv("VERIF_CRASH_FILE")
+	if p == "" {
+		return
+	}
+	b, err := os.ReadFile(p)
+	if err != nil {
+		return
+	}
+	f := strings.Fields(string(b))
+	if len(f) != 3 || f[0] != os.Getenv("VERIF_ROLE") || f[1] != name {
+		return
+	}
+	n, _ := strconv.Atoi(f[2])
+	verifCrashMu.Lock()
+	if verifCrashArmed != string(b) {
+		verifCrashArmed = string(b)
+		verifCrashSeen = map[string]int{}
+	}
+	verifCrashSeen[name]++
+	hit := verifCrashSeen[name] == n
+	verifCrashMu.Unlock()
+	if hit {
+		_ = os.WriteFile(p+".hit", []byte(name), 0o600)
+		_ = syscall.Kill(os.Getpid(), syscall.SIGKILL)
+		time.Sleep(time.Hour)
+	}
+}
 
 func verifStatusHook(filename string, had bool, old *StatusFileData, cur *StatusFileData) {
 	p := os.Getenv("VERIF_STATUS_LOG")
